@@ -295,8 +295,22 @@ def r034(prog, chk):
     extends = [c for c in calls_named(fi, "extend") if isinstance(c.func.value, ast.Name) and c.func.value.id == order]
     inserts = [c for c in calls_named(fi, "insert") if isinstance(c.func.value, ast.Name) and c.func.value.id == order]
     loops = [n for n in A.body_nodes(fi.node) if isinstance(n, ast.For)]
-    if inserts or len(loops) != 1 or len(extends) != 1 or not appends:
+    if inserts or not appends or not extends:
         raise AnalysisError(f"cannot interpret {fi.short} (shape-bound rule R03.4)")
+    # element-wise extends (a generator / comprehension over the requested order) are adds like the loop's append:
+    # they need the same "unused existing glyph, and used up afterwards" discipline, which a comprehension cannot give
+    tails = [e for e in extends if isinstance(e.args[0], ast.Call) and A.callee_name(e.args[0]) == "sorted"]
+    elementwise = [e for e in extends if e not in tails]
+    for e in elementwise:
+        chk.ob("R03.4", key(fi, e), False, where(fi, e),
+               message=f"`{T(e, 70)}` adds names to the order without using them up in the set of remaining names: a name listed twice in the requested order is emitted twice "
+                       f"(duplicate glyph, glyph count disagrees with the order)")
+    if len(tails) != 1 or (len(loops) != 1 and not elementwise):
+        raise AnalysisError(f"cannot interpret {fi.short} (shape-bound rule R03.4)")
+    extends = tails
+    if len(loops) != 1:
+        chk.minimum("R03.4", 1)
+        return
     loop = loops[0]
     # the remaining-names set: the variable tested by the guards
     sets = {d.name for n in A.body_nodes(fi.node) if isinstance(n, ast.Assign) and isinstance(n.value, ast.Call)
@@ -560,6 +574,9 @@ def r036(prog, chk, cm, only_when_no_hi):
 from ..selftest import M  # noqa: E402
 
 MUTANTS = [
+    M("requested order copied with a comprehension: repeated names emitted twice (seeded C03c)", "ufo2ft/util.py", "makeOfficialGlyphOrder",
+      "for name in glyphOrder:\n    if name not in names:\n        continue\n    names.remove(name)\n    order.append(name)\norder.extend(sorted(names))",
+      "order.extend((name for name in glyphOrder if name in names))\norder.extend(sorted(names.difference(order)))", rule="R03.4"),
     M("duplicate code point: later glyph silently wins", "ufo2ft/util.py", "makeUnicodeToGlyphNameMapping",
       "if uni not in mapping:\n    mapping[uni] = glyphName\nelse:\n    raise InvalidFontData(\"cannot map '%s' to U+%04X; already mapped to '%s'\" % (glyphName, uni, mapping[uni]))",
       "mapping[uni] = glyphName", rule="R03.1"),
